@@ -543,9 +543,29 @@ func c13Run(t *rapid.T) {
 			if err == nil {
 				track(tm, i, "NewTemplate")
 				out, err = safeExec(tm, plush.NewContextWith(rt.contextData()))
+			} else if tm != nil && uni(t, "usefailed", 2) == 0 {
+				// NewTemplate hands back its Template together with the error; executing that value (again and
+				// again) must keep giving the error of its text
+				hist = append(hist, "... the Template returned together with the error executed twice")
+				for x := 0; x < 2; x++ {
+					rt2 := newRT(i, j)
+					out2, err2 := safeExec(tm, plush.NewContextWith(rt2.contextData()))
+					compare(i, j, "Exec of the Template NewTemplate returned with an error", out2, err2, rt2)
+				}
 			}
 			compare(i, j, "NewTemplate+Exec", out, err, rt)
 			count("c13_op_newtemplate", 1)
+			if uni(t, "zerovalue", 4) == 0 {
+				// a Template value built by hand (Input is an exported field) parses itself on first use
+				hist = append(hist, fmt.Sprintf("&Template{Input: prog %d} executed 3 times, data %d", i, j))
+				zt := &plush.Template{Input: progs[i].text}
+				for x := 0; x < 3; x++ {
+					rt2 := newRT(i, j)
+					out2, err2 := safeExec(zt, plush.NewContextWith(rt2.contextData()))
+					compare(i, j, "Exec of a hand-built Template value", out2, err2, rt2)
+				}
+				count("c13_op_hand_built_template", 1)
+			}
 		case 9, 10:
 			var cands []*liveTmpl
 			for _, l := range live {
@@ -774,7 +794,20 @@ func safeBuffalo(text string, data, helpers map[string]interface{}) (out string,
 	return out, err
 }
 
+// A parser panic (totality of parsing is C03's subject) is a result like any other here: the same text must then
+// panic the same way every time.
+func recoverParse(tm **plush.Template, err *error) {
+	if r := recover(); r != nil {
+		if simrt.IsAbort(r) {
+			panic(r)
+		}
+		count("c13_parse_panics", 1)
+		*tm, *err = nil, &panicErr{r}
+	}
+}
+
 func simNewTemplate(text string) (tm *plush.Template, err error) {
+	defer recoverParse(&tm, &err)
 	if herr := underSim(func() { tm, err = plush.NewTemplate(text) }); herr != nil {
 		return nil, herr
 	}
@@ -782,8 +815,21 @@ func simNewTemplate(text string) (tm *plush.Template, err error) {
 }
 
 func simParse(text string) (tm *plush.Template, err error) {
+	defer recoverParse(&tm, &err)
 	if herr := underSim(func() { tm, err = plush.Parse(text) }); herr != nil {
 		return nil, herr
 	}
 	return tm, err
+}
+
+// guardedNewTemplate / guardedParse: the plain calls, with a parser panic turned into an error value (C03's
+// subject, not C13's or C14's: the same text must simply do the same everywhere). Usable inside tasks.
+func guardedNewTemplate(text string) (tm *plush.Template, err error) {
+	defer recoverParse(&tm, &err)
+	return plush.NewTemplate(text)
+}
+
+func guardedParse(text string) (tm *plush.Template, err error) {
+	defer recoverParse(&tm, &err)
+	return plush.Parse(text)
 }
